@@ -93,7 +93,10 @@ getStartIndex(
                     1),
                 theResult));
 
-        return XalanDOMString::size_type(theResult);
+        // Anything beyond the end of the string is the same as the
+        // length of the string, and converting a value that is out
+        // of range is undefined.
+        return theResult >= theStringLength ? theStringLength : XalanDOMString::size_type(theResult);
     }
 }
 
@@ -174,6 +177,12 @@ getSubstringLength(
             if (theTotal <= theXPathStartIndex)
             {
                 return 0;
+            }
+            else if (theTotal >= double(theXPathStartIndex) + double(theMaxLength))
+            {
+                // Everything to the end of the string.  Also, converting
+                // a value that is out of range is undefined.
+                return theMaxLength;
             }
             else
             {
